@@ -8,12 +8,14 @@ package sim
 import (
 	"context"
 	"fmt"
+	"reflect"
 	"runtime"
 	"sort"
 	"strings"
 	"sync"
 	"sync/atomic"
 	"time"
+	"unsafe"
 
 	"github.com/gogo/protobuf/proto"
 	"github.com/pingcap/failpoint"
@@ -566,6 +568,7 @@ func (cl *Cluster) Close() {
 	}
 	if cl.uniCli != nil {
 		_ = cl.uniCli.Close()
+		closeUniDB(cl.uniCli)
 	}
 }
 
@@ -641,6 +644,24 @@ func GoroutineDump() string {
 		keep = keep[:10]
 	}
 	return strings.Join(keep, "\n\n")
+}
+
+// closeUniDB closes the badger DB of a stopped unistore instance. unistore's own Close stops the server and
+// removes the directory but never closes the DB, whose background goroutines then keep ~9 MB of arenas alive per
+// instance - thousands of cases per process would not fit into memory. The DB is only reachable through
+// unexported fields, hence reflection.
+func closeUniDB(c *unistore.RPCClient) {
+	defer func() { _ = recover() }()
+	field := func(v reflect.Value, name string) reflect.Value {
+		f := v.Elem().FieldByName(name)
+		return reflect.NewAt(f.Type(), unsafe.Pointer(f.UnsafeAddr())).Elem()
+	}
+	svr := field(reflect.ValueOf(c), "usSvr")
+	store := field(svr, "mvccStore")
+	db := field(store, "db")
+	if m := db.MethodByName("Close"); m.IsValid() {
+		m.Call(nil)
+	}
 }
 
 // NextCall returns a fresh API call id.
